@@ -1330,13 +1330,13 @@ VARIANTS = [
     ('classic disconnect awaits bare', 'bumble/l2cap.py',
      "            return await self.connection.cancel_on_disconnection(\n                self.disconnection_result\n            )\n", "            return await self.disconnection_result\n", 'fire', 'C09.waiters'),
     ('LE abort no longer releases drain', 'bumble/l2cap.py',
-     "            self.disconnection_result = None\n        self.flush_output()\n\n    def on_pdu", "            self.disconnection_result = None\n\n    def on_pdu", 'fire', 'C09.waiters'),
+     '            self.disconnection_result = None\n        self.flush_output()\n        if was_open:\n            self._change_state(self.State.DISCONNECTED)\n', '            self.disconnection_result = None\n        if was_open:\n            self._change_state(self.State.DISCONNECTED)\n', 'fire', 'C09.waiters'),
     ('create_le leaves entry on failure', 'bumble/l2cap.py',
      "            logger.exception('connection failed')\n            del connection_channels[source_cid]\n            raise\n", "            logger.exception('connection failed')\n            raise\n", 'fire', 'C09.symmetric'),
     ('LE dynamic CID range shrunk', 'bumble/l2cap.py', "L2CAP_LE_U_DYNAMIC_CID_RANGE_END   = 0x007F", "L2CAP_LE_U_DYNAMIC_CID_RANGE_END   = 0x0040", 'fire', 'C09.cid-alloc'),
     ('disconnection response does not remove channel', 'bumble/l2cap.py',
-     "        self._change_state(self.State.DISCONNECTED)\n        self.manager.on_channel_closed(self)\n        if self.disconnection_result:\n",
-     "        self._change_state(self.State.DISCONNECTED)\n        if self.disconnection_result:\n", 'fire', 'C09.state-table'),
+     "            logger.warning('unexpected source or destination CID')\n            return\n\n        self.manager.on_channel_closed(self)\n        if self.disconnection_result:\n            if not self.disconnection_result.done():\n                self.disconnection_result.set_result(None)\n            self.disconnection_result = None\n        self._change_state(self.State.DISCONNECTED)\n",
+     "            logger.warning('unexpected source or destination CID')\n            return\n\n        if self.disconnection_result:\n            if not self.disconnection_result.done():\n                self.disconnection_result.set_result(None)\n            self.disconnection_result = None\n        self._change_state(self.State.DISCONNECTED)\n", 'fire', 'C09.state-table'),
     ('benign: rename walrus local', 'bumble/l2cap.py',
      "        if connection_channels := self.channels.get(channel.connection.handle):\n            connection_channels.pop(channel.source_cid, None)\n",
      "        if chans := self.channels.get(channel.connection.handle):\n            chans.pop(channel.source_cid, None)\n", 'silent', ''),
